@@ -1650,7 +1650,24 @@ void process_header_to_links(mmd_engine * e, token * h) {
 		label = label_from_token(e->dstr->str, manual);
 		h = manual;
 	} else {
-		label = label_from_token(e->dstr->str, h);
+		// Use the same text as the id of the header (label_from_header): without
+		// the underline of a Setext header, whose '-' would become part of the label
+		token * temp = token_new(h->type, h->start, h->len);
+
+		if (h->child && h->child->tail) {
+			switch (h->child->tail->type) {
+				case MARKER_SETEXT_1:
+				case MARKER_SETEXT_2:
+					temp->len = h->child->tail->start - h->start;
+					break;
+
+				default:
+					break;
+			}
+		}
+
+		label = label_from_token(e->dstr->str, temp);
+		token_free(temp);
 	}
 
 	DString * url = d_string_new("#");
@@ -1658,6 +1675,12 @@ void process_header_to_links(mmd_engine * e, token * h) {
 	d_string_append(url, label);
 
 	link * l = link_new(e->dstr->str, h, url->str, NULL, NULL, LINK_AUTO);
+
+	if (l && !manual) {
+		// References by title are matched against this label
+		free(l->label_text);
+		l->label_text = my_strdup(label);
+	}
 
 	// Store link for later use
 	stack_push(e->link_stack, l);
